@@ -28,7 +28,7 @@ REQUIRED_STRATA = {"seq-exhaustive": 1000, "automaton-step": 100, "automaton-com
 
 LETTERS = [None, True, 1, 2.5, 1j, "a", b"a", date(2020, 1, 2), datetime(2020, 1, 2, 3, 4), [1], (1,), {"a": 1},
 	Decimal("1.5"), timedelta(days=1), V.Plain(1), V.MyInt(1)]
-EXTRA_LETTERS = [V.MyStr("s"), V.Color.RED, V.Other(1)]
+EXTRA_LETTERS = [V.MyStr("s"), V.Color.RED, V.Other(1), V.Base(1), V.Sub(1), Decimal("2"), V.DecSub("3")]
 
 
 def cls_name(v):
@@ -294,7 +294,10 @@ def run(chk):
 			continue
 		perms = [list(range(n))] + [rng.sample(range(n), n) for _ in range(5)]
 		chk.case("vector", {"values": vals, "perms": perms}, "vector-sampled")
-	# result typing
-	nres = 400 if chk.quick() else 2500
+	# result typing: the whole operator x form x kind-pair product of the arithmetic check, then sampled joins / aggregates / CSV
+	from . import c05
+	for spec in c05.product_specs(chk):
+		chk.case("result", spec, "result-typing-arith")
+	nres = 600 if chk.quick() else 4000
 	for _ in range(nres):
 		chk.case("result", common.gen_result_spec(rng), "result-typing")
